@@ -120,11 +120,12 @@ func c10Rands(tier string) []float64 {
 }
 
 type c10Case struct {
-	Cfg  time.Duration `json:"cfg"`
-	Ctx  time.Duration `json:"ctx"`
-	Rand float64       `json:"rand"`
-	Wrap int           `json:"wrap,omitempty"` // how the write context is composed around the TTL, see c10Wraps
-	Pre  int           `json:"pre,omitempty"`  // the key already holds an entry: 1 = written with a context TTL of +7h, 2 = of -7h, 3 = written and then expired by ExpireAll, 4 = no entry, but the write context was used before for a write to another cache
+	Cfg   time.Duration `json:"cfg"`
+	Ctx   time.Duration `json:"ctx"`
+	Rand  float64       `json:"rand"`
+	Wrap  int           `json:"wrap,omitempty"`  // how the write context is composed around the TTL, see c10Wraps
+	Pre   int           `json:"pre,omitempty"`   // the key already holds an entry: 1 = written with a context TTL of +7h, 2 = of -7h, 3 = written and then expired by ExpireAll, 4 = no entry, but the write context was used before for a write to another cache
+	Store bool          `json:"store,omitempty"` // the entry is written with Store (no context at all; ShardedMap / ShardedMapOf)
 }
 
 // c10Wraps: the context TTL has to survive the other context helpers and derived contexts around it.
@@ -219,7 +220,9 @@ func c10One(cc c10Cell, cs c10Case) (string, string, int) {
 
 	t := vclock.NowQuiet().UnixNano()
 
-	if err := b.Write(wctx, key, 7); err != nil {
+	if cs.Store {
+		b.Store(key, 7)
+	} else if err := b.Write(wctx, key, 7); err != nil {
 		return "write-failed", err.Error(), ops
 	}
 
@@ -378,6 +381,18 @@ func c10Cases(cc c10Cell, tier string) []c10Case {
 		}
 	}
 
+	// the context-free entry point: Store stands for a write without any context TTL
+	if cc.Backend != "SyncMap" {
+		n := len(cases)
+		for i := 0; i < n; i++ {
+			if cases[i].Ctx == 0 && cases[i].Wrap == 0 {
+				c := cases[i]
+				c.Store = true
+				cases = append(cases, c)
+			}
+		}
+	}
+
 	// every case of the grid with a bare context once more on a key that already holds an entry
 	n := len(cases)
 	for i := 0; i < n; i++ {
@@ -426,7 +441,7 @@ func c10Run(c Cell, env *Env) CellResult {
 				seen[sig] = true
 				js, _ := json.Marshal(cs)
 				res.Violations = append(res.Violations, Violation{
-					Signature: sig, Detail: fmt.Sprintf("%s (config TTL %v, context TTL %v as %s, jitter %v, rand %v, earlier entry of the key: %s)", detail, cs.Cfg, cs.Ctx, c10Wraps[cs.Wrap], cc.Jitter, cs.Rand, []string{"none", "context TTL +7h", "context TTL -7h", "expired by ExpireAll", "none, but the context was used for a write to another cache"}[cs.Pre]), Extra: js,
+					Signature: sig, Detail: fmt.Sprintf("%s (config TTL %v, context TTL %v as %s, jitter %v, rand %v, via Store: %v, earlier entry of the key: %s)", detail, cs.Cfg, cs.Ctx, c10Wraps[cs.Wrap], cc.Jitter, cs.Rand, cs.Store, []string{"none", "context TTL +7h", "context TTL -7h", "expired by ExpireAll", "none, but the context was used for a write to another cache"}[cs.Pre]), Extra: js,
 				})
 			}
 
